@@ -379,6 +379,127 @@ def roundtrip(spec, mode="plain"):
     return res
 
 
+# ----------------------------------------------------------------------------- write histories on ONE document object
+def _set(obj, **kw):
+    for k, v in kw.items():
+        setattr(obj, k, v)
+
+
+def apply_edits(doc, spec):
+    """edit the objects of `doc` IN PLACE so that the document describes `spec` (same shape: same constructs, same number and
+    variants of rows); only plain attribute assignment, the way a user edits a model between two writes"""
+    import neuroml
+    for net, ns in zip(doc.networks, spec["networks"]):
+        for pop, ps in zip(net.populations, ns.get("populations", [])):
+            pop.size = ps.get("size")
+            want = ps.get("instances", [])
+            if len(want) != len(pop.instances):
+                del pop.instances[:]
+                for iid, x, y, z in want:
+                    inst = neuroml.Instance(id=iid)
+                    inst.location = neuroml.Location(x=x, y=y, z=z)
+                    pop.instances.append(inst)
+            else:
+                for inst, (iid, x, y, z) in zip(pop.instances, want):
+                    inst.id = iid
+                    _set(inst.location, x=x, y=y, z=z)
+        for pr, js in zip(net.projections, ns.get("projections", [])):
+            objs = {"C": list(pr.connections), "W": list(pr.connection_wds)}
+            for c in js["conns"]:
+                o = objs[c["v"]].pop(0)
+                _set(o, id=c["id"], pre_cell_id=c["pre"], post_cell_id=c["post"])
+                for k in ("pre_segment_id", "post_segment_id", "pre_fraction_along", "post_fraction_along"):
+                    if c.get(k) is not None:
+                        setattr(o, k, c[k])
+                if c["v"] == "W":
+                    _set(o, weight=c["weight"], delay=c["delay"])
+        for key, lists, attr in (("electrical", ("electrical_connections", "electrical_connection_instances", "electrical_connection_instance_ws"), "electrical_projections"),
+                                 ("continuous", ("continuous_connections", "continuous_connection_instances", "continuous_connection_instance_ws"), "continuous_projections")):
+            for pr, js in zip(getattr(net, attr), ns.get(key, [])):
+                objs = [list(getattr(pr, l)) for l in lists]
+                for c in js["conns"]:
+                    o = objs[{"E": 0, "EI": 1, "EIW": 2, "K": 0, "KI": 1, "KIW": 2}[c["v"]]].pop(0)
+                    _set(o, id=c["id"], pre_cell=c["pre"], post_cell=c["post"])
+                    for k in ("pre_segment", "post_segment", "pre_fraction_along", "post_fraction_along"):
+                        if c.get(k) is not None:
+                            setattr(o, k, c[k])
+                    if c["v"] in ("EIW", "KIW"):
+                        o.weight = c["weight"]
+        for il, js in zip(net.input_lists, ns.get("input_lists", [])):
+            objs = {"I": list(il.input), "IW": list(il.input_ws)}
+            for c in js["inputs"]:
+                o = objs[c["v"]].pop(0)
+                _set(o, id=c["id"], target=c["target"])
+                if c.get("segment_id") is not None:
+                    o.segment_id = c["segment_id"]
+                if c.get("fraction_along") is not None:
+                    o.fraction_along = c["fraction_along"]
+                if c["v"] == "IW":
+                    o.weight = c["weight"]
+
+
+def first_use(doc, action, tmp):
+    """what happens to the document object before it is edited"""
+    from neuroml.writers import NeuroMLHdf5Writer, NeuroMLWriter
+    if action == "write":
+        NeuroMLHdf5Writer.write(doc, os.path.join(tmp, "first.nml.h5"))
+    elif action == "summary":
+        doc.summary()
+    elif action == "xml":
+        NeuroMLWriter.write(doc, io.StringIO(), close=False)
+    elif action == "str":
+        for n in doc.networks:
+            for pr in n.projections:
+                [str(c) for c in list(pr.connections) + list(pr.connection_wds)]
+            for pr in n.electrical_projections:
+                [str(c) for c in list(pr.electrical_connections) + list(pr.electrical_connection_instances) + list(pr.electrical_connection_instance_ws)]
+            for pr in n.continuous_projections:
+                [str(c) for c in list(pr.continuous_connections) + list(pr.continuous_connection_instances) + list(pr.continuous_connection_instance_ws)]
+            for il in n.input_lists:
+                [str(c) for c in list(il.input) + list(il.input_ws)]
+            [str(p) for p in n.populations]
+
+
+def history(spec, spec_after, action, mode="plain"):
+    """build spec, use the document once (write / summary / str / xml), edit it in place to spec_after, write, load.
+    The loaded document must describe the EDITED document, i.e. what a fresh process writes for spec_after."""
+    res = {"mode": mode, "stage": "build", "error": None, "action": action}
+    tmp = tempfile.mkdtemp(prefix="c05rt_")
+    try:
+        with quiet():
+            from neuroml.loaders import NeuroMLHdf5Loader
+            from neuroml.writers import NeuroMLHdf5Writer
+            doc = build_doc(spec)
+            fresh = sem_doc(build_doc(spec_after))
+            res["stage"] = "first-use"
+            first_use(doc, action, tmp)
+            res["stage"] = "edit"
+            apply_edits(doc, spec_after)
+            before = sem_doc(doc)
+            if before != fresh:
+                res["error"] = "harness: the in-place edit does not produce the target document"
+                res["before"] = fresh
+                res["after"] = before
+                res["stage"] = "edit-mismatch"
+                return res
+            res["before"] = before
+            res["stage"] = "write"
+            f = os.path.join(tmp, "net.nml.h5")
+            NeuroMLHdf5Writer.write(doc, f)
+            res["doc_untouched"] = (sem_doc(doc) == before)
+            res["stage"] = "load"
+            back = NeuroMLHdf5Loader.load(f, optimized=(mode == "optimized"))
+            res["stage"] = "project"
+            res["after"] = sem_doc(back)
+            res["stage"] = "done"
+    except Exception as e:  # noqa: BLE001
+        res["error"] = "%s: %s" % (type(e).__name__, str(e)[:300])
+    finally:
+        _close_all()
+        shutil.rmtree(tmp, ignore_errors=True)
+    return res
+
+
 def verdict(res, expect):
     """property predicate on one round trip.
     expect = "same"      : must succeed and sem(after) == sem32(before)
@@ -403,8 +524,13 @@ def main():
     for c in payload["cases"]:
         rs = {}
         for mode in c.get("modes", ["plain"]):
-            r = roundtrip(c["spec"], mode)
-            v = verdict(r, c.get("expect", "same"))
+            if c.get("after_spec") is not None:
+                r = history(c["spec"], c["after_spec"], c.get("action", "write"), mode)
+                if r["stage"] == "edit-mismatch":
+                    r["verdict_override"] = {"ok": False, "diff": diff(r["before"], r["after"]) or [["", "edit", "mismatch"]]}
+            else:
+                r = roundtrip(c["spec"], mode)
+            v = r.get("verdict_override") or verdict(r, c.get("expect", "same"))
             rs[mode] = {"stage": r["stage"], "error": r["error"], "verdict": v,
                         "doc_untouched": r.get("doc_untouched"),
                         "after": r.get("after") if c.get("want_after") else None}
